@@ -172,9 +172,8 @@ def handle_call(sub: Sub, t: dict[str, Any], res: dict[str, Any]) -> None:
     if res.get("harness"):
         raise RuntimeError("C12 call harness: " + res["harness"])
     if res.get("fail"):
-        ctx.inconc("call:batch-failed-without-attributable-line (owner: C20)", len(t["_cases"]))
         ctx.extra.setdefault("foreign_incidents", []).append({"owner": "C20", "witness": str(res["fail"])[:300]})
-        return
+    ctx.cell("call:mypy-runs", res.get("runs", 1))
     if res.get("stray"):
         raise RuntimeError(f"C12 call harness: diagnostics on prelude lines {res['stray']}")
     if res.get("kind_cells"):
@@ -195,6 +194,11 @@ def handle_call(sub: Sub, t: dict[str, Any], res: dict[str, Any]) -> None:
                    "replay_task": {"fn": T + "call_batch", "_kind": "call", "_cases": [[sig, call]], "_tag": "replay"}}
         if rt is not None and rt.startswith("!"):
             raise RuntimeError(f"C12 call harness: runtime side raised {rt} for {witness}")
+        if r.get("unjudged"):
+            sub.n["call"]["evaluations"] -= 1
+            ctx.evaluations -= 1
+            ctx.inconc("call:unjudged-after-unattributable-internal-error (owner: C20)")
+            continue
         if r.get("crash"):
             witness["internal_error"] = r["crash"]
             sub.viol("call", classify_call(params, actuals, [], rt, r["crash"]),
@@ -670,7 +674,8 @@ def handle_fold(sub: Sub, t: dict[str, Any], res: dict[str, Any], pending: list[
         if c.get("crash"):
             sub.ev("fold")
             cr = c["crash"]
-            sub.viol("fold", f"fold:mypy:internal-error:{cr.get('exc')}@{cr.get('file')}:{cr.get('func')}",
+            sub.viol("fold", f"fold:mypy:internal-error:{cr.get('exc')}@{cr.get('file')}:{cr.get('func')}"
+                     + (":direct-call-only" if cr.get("confirmed_by_real_build") is False else ""),
                      f"mypy fails internally while folding `{c['expr']}` (CPython: {c['rt']})",
                      {"expr": c["expr"], "decls": t["args"]["decls"], "cpython_eval": c["rt"], "internal_error": cr,
                       "replay_task": {"fn": T + "fold_batch", "args": {**t["args"], "exprs": [c["expr"]], "mypyc": False},
@@ -691,6 +696,16 @@ def handle_fold(sub: Sub, t: dict[str, Any], res: dict[str, Any], pending: list[
         judge("mypy", s["src"], s["fold"], s["rt"], s["line_expr"], {"sub_expression": True})
     m = res.get("mypyc")
     if m is not None:
+        for cr in m.get("crashed", []):
+            sub.ev("fold")
+            ok, v = G.fold_guard(cr["expr"], fold_env())
+            sub.viol("fold", f"fold:mypyc:internal-error:{cr.get('exc')}@{cr.get('file')}:{cr.get('func')}"
+                     + ("" if cr.get("confirmed_by_real_ir_build") else ":direct-call-only"),
+                     f"mypyc fails internally while folding `{cr['expr']}` "
+                     f"(CPython: {'raises ' + type(v).__name__ if isinstance(v, BaseException) else 'evaluates it'})",
+                     {"expr": cr["expr"], "decls": t["args"]["decls"], "internal_error": cr,
+                      "replay_task": {"fn": T + "fold_batch", "args": {**t["args"], "exprs": [cr["expr"]], "mypyc": True},
+                                      "_kind": "fold", "_tag": "replay"}})
         if m.get("fail"):
             f = m["fail"]
             if f.get("kind") == "crash":
